@@ -35,16 +35,31 @@ def render(cmds, bpa, variant):
     for i, c in enumerate(cmds):
         st = (variant + i) % 3
         a = c["a"] // bpa * 1
+        if c["k"] == "asm":
+            lines.append("asm" if c["a"] < 0 else "asm " + spell(c["a"], 0 if st == 1 else st))
+            for it in c["items"]:
+                if it["k"] == "org":
+                    lines.append(".org " + spell(it["a"], 0 if st == 1 else st))
+                elif it["k"] == "res":
+                    lines.append(".resb %d" % it["cnt"])
+                elif it["k"] == "insn":
+                    lines.append(INSN[it["cpu"]] % it["imm"])
+                else:
+                    d = {1: ".db", 2: ".dc16", 4: ".dc32"}[it["w"]]
+                    lines.append("%s %s" % (d, ", ".join(spell(int.from_bytes(bytes(v[:it["w"]]), "little"), 0 if (st + vi) % 3 == 1 else (st + vi) % 3)
+                                                        for vi, v in enumerate(it["vals"]))))
+            lines.append("")
+            continue
         if c["k"] == "write":
             name = {1: "write", 2: "write16", 4: "write32"}[c["w"]]
             vals = []
             for vi, v in enumerate(c["vals"]):
                 n = int.from_bytes(bytes(v[:c["w"]]), "little")
                 vals.append(spell(n, (st + 1 + vi) % 3))
-            lines.append("%s %s %s" % (name, spell(c["a"], st), " ".join(vals)))
+            lines.append("%s %s %s" % (name, c.get("sa") or spell(c["a"], st), " ".join(vals)))
         else:
             name = {1: "print", 2: "print16", 4: "print32"}[c["w"]]
-            lines.append("%s %s-%s" % (name, spell(c["a"], st), spell(c["b"], (st + 2) % 3)))
+            lines.append("%s %s-%s" % (name, c.get("sa") or spell(c["a"], st), c.get("sb") or spell(c["b"], (st + 2) % 3)))
     return "\n".join(lines) + "\nquit\n"
 
 
@@ -73,9 +88,11 @@ def parse_dumps(out, cmds):
 
 
 def run_one(a):
-    exe, d, cid, cpu, script = a
+    exe, d, cid, cpu, script = a[:5]
+    fname = a[5] if len(a) > 5 else "init.hex"
+    opts = a[6] if len(a) > 6 else []
     try:
-        p = subprocess.run([exe, "-" + cpu, os.path.join(d, "init.hex")], cwd=d, input=script.encode(), stdout=subprocess.PIPE,
+        p = subprocess.run([exe, "-" + cpu] + opts + [os.path.join(d, fname)], cwd=d, input=script.encode(), stdout=subprocess.PIPE,
                            stderr=subprocess.STDOUT, timeout=20)
         return cid, p.returncode, p.stdout.decode("latin-1")
     except subprocess.TimeoutExpired:
@@ -88,6 +105,8 @@ REGRX = {"msp430": re.compile(r" r5: 0x([0-9a-f]{4})"), "6502": re.compile(r"A=0
 BPA = {"msp430": 1, "6502": 1, "z80": 1, "avr8": 2}
 # Util!LoadBytes is the reference; this table only renders the same bytes as `write` arguments and is checked
 # against the model by the acceptor (IsLoadAt must hold for the written memory)
+# the same instruction as source text for interactive asm (Util!LoadBytes is what it must assemble to)
+INSN = {"msp430": "mov.w #%d, r5", "6502": "lda #%d", "z80": "ld a, %d", "avr8": "ldi r16, %d"}
 LOADB = {"msp430": lambda v: [0x35, 0x40, v & 255, (v >> 8) & 255], "6502": lambda v: [0xa9, v & 255],
          "z80": lambda v: [0x3e, v & 255], "avr8": lambda v: [v & 15, 0xe0 | ((v >> 4) & 15)]}
 
@@ -108,8 +127,15 @@ def fetch_part(chk, vdir, rd, wd, tier, rnd):
         cpu, bpa = c["cpu"], BPA[c["cpu"]]
         pc = c["pc"] - c["pc"] % 2
         ib = LOADB[cpu](c["imm"])
-        cmds = [dict(k="write", w=1, a=pc, b=0, vals=[[b, 0, 0, 0] for b in ib], out=[])]
-        lines = ["write 0x%x %s" % (pc, " ".join("0x%x" % b for b in ib))]
+        if c.get("via") == "asm":
+            # the constant generator of the MSP430 gives #0 #1 #2 #4 #8 #-1 a one-word encoding; 8-bit immediates elsewhere
+            if (cpu == "msp430" and c["imm"] in (0, 1, 2, 4, 8, 65535)) or (cpu != "msp430" and c["imm"] > 255):
+                continue
+            cmds = [dict(k="asm", a=pc, w=0, b=0, vals=[], out=[], items=[dict(k="insn", cpu=cpu, imm=c["imm"])])]
+            lines = ["asm 0x%x" % pc, INSN[cpu] % c["imm"], ""]
+        else:
+            cmds = [dict(k="write", w=1, a=pc, b=0, vals=[[b, 0, 0, 0] for b in ib], out=[])]
+            lines = ["write 0x%x %s" % (pc, " ".join("0x%x" % b for b in ib))]
         if c["ow"]:
             # overwrite the second half of the instruction with a 16 or 8 bit write (address in units)
             w = 2 if c["ow"] == 2 else 1
@@ -121,8 +147,14 @@ def fetch_part(chk, vdir, rd, wd, tier, rnd):
                     oa = pc + 1
             cmds.append(dict(k="write", w=w, a=oa, b=0, vals=[c["ov"]], out=[]))
             lines.append("%s 0x%x 0x%x" % ("write16" if w == 2 else "write", oa, c["ov"][0] | (c["ov"][1] << 8) if w == 2 else c["ov"][0]))
-        lines += ["set pc=0x%x" % pc, "step", "registers", "quit"]
         cid = "f%d" % i
+        if c.get("via") == "write" and not c["ow"] and i % 2:
+            # the program counter comes from the command line instead of `set pc`
+            lines += ["step", "registers", "quit"]
+            meta[cid] = (cpu, bpa, cmds, pc, "# -set_pc 0x%x\n" % pc + "\n".join(lines) + "\n")
+            jobs.append((exe, wd, cid, cpu, "\n".join(lines) + "\n", "init.hex", ["-set_pc", "0x%x" % pc]))
+            continue
+        lines += ["set pc=0x%x" % pc, "step", "registers", "quit"]
         meta[cid] = (cpu, bpa, cmds, pc, "\n".join(lines) + "\n")
         jobs.append((exe, wd, cid, cpu, meta[cid][4]))
     events = []
@@ -150,12 +182,25 @@ def run(tier, seed):
     sessions = C.parse_payload(g.lines, "CASE ")
     if len(sessions) < 300:
         raise C.InfraError("only %d sessions" % len(sessions))
-    gb = C.tlc("GenUtil", "gen_UtilFetch.cfg", os.path.join(rd, "genbound"), workers=1, heap="2g", prefixes=("BOUND ",))
+    gb = C.tlc("GenUtil", "gen_UtilFetch.cfg", os.path.join(rd, "genbound"), workers=1, heap="2g", prefixes=("BOUND ", "ASMS ", "SYMS "))
     bound = C.parse_payload(gb.lines, "BOUND ")
     if not bound or len(bound[0]) < 20:
         raise C.InfraError("no boundary sessions")
+    asms = C.parse_payload(gb.lines, "ASMS ")
+    if not asms or len(asms[0]) < 100:
+        raise C.InfraError("no asm sessions")
+    asess = sorted(asms[0], key=lambda x: json.dumps(x, sort_keys=True))
+    if tier == "quick":
+        asess = rnd.sample(asess, 120)
+    syp = C.parse_payload(gb.lines, "SYMS ")
+    if not syp or len(syp[0]["sessions"]) < 30:
+        raise C.InfraError("no symbol sessions")
+    syms = syp[0]["syms"]
+    ssess = sorted(syp[0]["sessions"], key=lambda x: json.dumps(x, sort_keys=True))
+    if tier == "quick":
+        ssess = rnd.sample(ssess, 24)
     # each boundary session on every carrier
-    bsess = sorted(bound[0], key=lambda x: json.dumps(x, sort_keys=True))
+    bsess = sorted(bound[0], key=lambda x: json.dumps(x, sort_keys=True)) + asess
     nrand = len(sessions)
     sessions = sessions + [b for b in bsess for _ in CARRIERS]
     wd = os.path.join(rd, "w")
@@ -169,18 +214,48 @@ def run(tier, seed):
         cm = []
         for c in s:
             c = dict(c)
+            if c["k"] == "asm":
+                cm.append(c)
+                continue
             # naken_util insists on the CPU's alignment, not on the width of the access (msp430, 68000, avr8: 2 bytes,
             # propeller: 4): a write32 at 0xfffe is legal on msp430 and crosses a 64 KiB page
             ub = min(c["w"], {"propeller": 4}.get(cpu, 2))
             unit = max(1, ub // bpa)
-            c["a"] -= c["a"] % unit
-            if c["k"] == "print":
+            if not c.get("sa"):
+                c["a"] -= c["a"] % unit
+            if c["k"] == "print" and not c.get("sb"):
                 c["b"] -= c["b"] % unit
             cm.append(c)
         cid = "u%d" % i
         script = render(cm, bpa, i)
         meta[cid] = (cpu, bpa, big, cm, script)
         jobs.append((exe, wd, cid, cpu, script))
+    # symbol sessions: the real naken_asm writes an ELF file whose exported labels are the model's symbols (unit addresses),
+    # the real loader reads it; the data behind the labels is position-derived
+    extra = {}
+    nasm = os.path.join(vdir, "naken_asm")
+    order = sorted(syms, key=lambda y: y["a"])
+    for cpu, bpa, big in CARRIERS:
+        src, cells, pos = [".%s" % cpu, ".org 0x%x" % order[0]["a"]], [], order[0]["a"] * bpa
+        for k, sy in enumerate(order):
+            src.append("%s:" % sy["name"])
+            n = ((order[k + 1]["a"] - sy["a"]) if k + 1 < len(order) else 4) * bpa
+            bs = [((pos + j) * 7 + 3) & 0xff for j in range(n)]
+            src.append(".db " + ", ".join(str(b) for b in bs))
+            cells += [{"a": pos + j, "b": bs[j]} for j in range(n)]
+            pos += n
+        src += [".export %s" % sy["name"] for sy in order]
+        open(os.path.join(wd, "sym_%s.asm" % cpu), "w").write("\n".join(src) + "\n")
+        p = subprocess.run([nasm, "-type", "elf", "-o", "sym_%s.elf" % cpu, "sym_%s.asm" % cpu], cwd=wd, stdout=subprocess.PIPE, stderr=subprocess.STDOUT, timeout=20)
+        if p.returncode != 0 or not os.path.exists(os.path.join(wd, "sym_%s.elf" % cpu)):
+            raise C.InfraError("naken_asm could not write the symbol file for %s: %s" % (cpu, p.stdout.decode("latin-1")[-300:]))
+        for k, s0 in enumerate(ssess):
+            cid = "y%s.%d" % (cpu, k)
+            cm = [dict(c) for c in s0]
+            script = render(cm, bpa, k)
+            meta[cid] = (cpu, bpa, big, cm, script)
+            extra[cid] = dict(init=cells, syms=syms)
+            jobs.append((exe, wd, cid, cpu, script, "sym_%s.elf" % cpu))
     # dedicated probe: an address spelled with the h suffix followed by values
     pc = [dict(k="write", w=1, a=16, b=0, vals=[[7, 0, 0, 0]]), dict(k="print", w=1, a=16, b=20, vals=[])]
     meta["probe_h"] = ("msp430", 1, False, pc, "write 10h 7\nprint 0x10-0x14\nquit\n")
@@ -213,7 +288,9 @@ def run(tier, seed):
                     c["b"] = 0
                     c["out"] = []
                 evc.append(c)
-            events.append({"id": cid, "bpa": bpa, "big": big, "init": [{"a": a, "b": b} for a, b in INIT], "cmds": evc})
+            ev = {"id": cid, "bpa": bpa, "big": big, "init": [{"a": a, "b": b} for a, b in INIT], "cmds": evc}
+            ev.update(extra.get(cid, {}))
+            events.append(ev)
     fevents, fmeta = fetch_part(chk, vdir, rd, wd, tier, rnd)
     events += fevents
     canaries = set()
@@ -223,7 +300,29 @@ def run(tier, seed):
         c["reg"] ^= 1
         canaries.add(c["id"])
         events.append(c)
-    pool = [e for e in events if any(c["k"] == "print" and c.get("out") for c in e["cmds"])]
+    # binding of the asm model: a data item of an assembled block changed in the record (sessions on byte-addressed carriers
+    # whose prints cover the block)
+    apool = [e for e in events if e["id"].startswith("u") and e["bpa"] == 1 and len(e["cmds"]) == 7 and e["cmds"][2]["k"] == "asm"
+             and e["cmds"][2]["a"] in (0, 16, 256) and e["cmds"][2]["items"][0]["k"] == "data"]
+    if len(apool) < 4:
+        raise C.InfraError("no asm sessions to corrupt")
+    for e in rnd.sample(apool, 4):
+        c = json.loads(json.dumps(e))
+        c["id"] = "canary.asm." + e["id"]
+        c["cmds"][2]["items"][0]["vals"][0][0] ^= 64
+        canaries.add(c["id"])
+        events.append(c)
+    ypool = [e for e in events if e["id"].startswith("y")]
+    if len(ypool) < 4:
+        raise C.InfraError("no symbol sessions to corrupt")
+    for e in rnd.sample(ypool, 4):
+        c = json.loads(json.dumps(e))
+        c["id"] = "canary.sym." + e["id"]
+        c["syms"] = [dict(y, a=y["a"] + 4) if y["name"] == "foo" else y for y in c["syms"]]
+        canaries.add(c["id"])
+        events.append(c)
+    pool = [e for e in events if any(c["k"] == "print" and c.get("out") for c in e["cmds"])
+            and not any(c["k"] == "asm" and c["a"] < 0 for c in e["cmds"]) and not e["id"].startswith("canary")]
     for e in rnd.sample(pool, min(16, len(pool))):
         c = json.loads(json.dumps(e))
         c["id"] = "canary." + e["id"]
@@ -257,13 +356,14 @@ def run(tier, seed):
     chk.cov.update(dict(
         evaluations=len(jobs) + len(fevents), fetch_cases=len(fevents),
         distinct_nontrivial=len({m[4] for m in meta.values()}),
-        rule="GenUtil draws sessions of 2-6 write/write16/write32/print/print16/print32 commands (8 addresses incl. row and page "
+        rule="GenUtil draws sessions of 2-6 write/write16/write32/print/print16/print32/asm commands (8 addresses incl. row and page "
              "boundaries, 10 values, ranges a-b); rendered with rotating number spellings (0x10, 10h, 16) for msp430, 68000, avr8, "
              "propeller; every session is non-trivial; distinct by script",
         traces_validated_against_impl=len(events) - len(canaries),
         canaries=dict(injected=len(canaries), rejected=len(canaries)), exhaustive=False))
     chk.samples = [meta[c][4] for c in rnd.sample(sorted(meta), 3)]
-    chk.assumptions = ["interactive asm, disasm, symbol-name ranges, -address and -set_pc are not covered in this revision (range disassembly and -address are exercised by C08)",
+    chk.assumptions = ["interactive asm blocks hold data directives (and one load-immediate instruction in the fetch cases); symbol names appear in ranges only; "
+                       "disasm ranges and -address are exercised by C08",
                        "simulator fetch: one load-immediate instruction per CPU (msp430, 6502, z80, avr8), written with write/write16 and executed with set pc / step",
                        "the dump lexer takes lines of the form 0xADDR: v v v ..."]
     return chk.finish()
